@@ -163,7 +163,7 @@ func runC05(c *Ctx) {
 	for i := 0; i < 3+c.T.Choose(4) && c.S.Viol == nil; i++ {
 		method := []string{"RDG_OUT_DATA", "RDG_OUT_DATA", "RDG_IN_DATA", "GET", "POST"}[c.T.Choose(5)]
 		from := fmt.Sprintf("10.6.0.%d:%d", 1+i, 46000+i)
-		kind := c.T.Choose(14)
+		kind := c.T.Choose(15)
 		if w.has("kerberos") && c.T.Bool(1, 3) {
 			kind = 100 + c.T.Choose(5)
 		}
@@ -390,6 +390,55 @@ func runC05(c *Ctx) {
 			expectReached = false
 			if fault == "" && !reached(r1) && c.S.Viol == nil {
 				c.S.Fail("C05", "good-credentials-refused", "auth=%v %s: the RDG_OUT_DATA request with correct credentials got %d", w.mechs, what, r1.Status)
+			}
+		case 14:
+			// a client that hangs up (or half-closes) right after its request, while the
+			// authentication service is still being asked (it answers after a second or two):
+			// nobody was confirmed, so the handler must not be reached
+			if w.tls || w.node == nil || fault != "" {
+				what = "basic-wrong(\"alice\",\"wrong\")"
+				r = w.request(method, []string{basic("alice", "wrong")}, from)
+				expectReached = open && (method == "RDG_OUT_DATA" || method == "RDG_IN_DATA")
+				break
+			}
+			{
+				auth := "NTLM " + b64(codec.NTLMNegotiate())
+				if !w.has("ntlm") || c.T.Bool(1, 2) {
+					auth = basic("alice", []string{"wrong", "correct horse"}[c.T.Choose(2)])
+				}
+				half := c.T.Bool(1, 2)
+				what = fmt.Sprintf("client-%s-while-the-provider-is-asked(%.12s...)", map[bool]string{true: "half-closes", false: "closes"}[half], auth)
+				w.node.SlowBy = time.Duration(1+c.T.Choose(3)) * time.Second
+				w.n++
+				e, err := c.S.Connect(fmt.Sprintf("gone%d", w.n), from, c.W.GW.Addr)
+				if err != nil {
+					c.Infra("connect: %v", err)
+					return
+				}
+				e.Opaque, e.Peer.Opaque = true, true
+				e.Send([]byte("RDG_OUT_DATA /remoteDesktopGateway/ HTTP/1.1\r\nHost: gw.test\r\nRdg-Connection-Id: " + fmt.Sprintf("{C05G-%d}", w.n) + "\r\nAuthorization: " + auth + "\r\n\r\n"))
+				c.S.Run(func() bool { return e.Peer.InFlight() == 0 }, 2000, time.Second)
+				if half {
+					e.ShutWrite()
+				} else {
+					e.Shut()
+				}
+				c.S.Count("fault.client.gone_while_provider_is_asked")
+				c.S.Run(func() bool { h, _ := codec.ParseHead(e.Recv); return h != nil }, 6000, 8*time.Second)
+				w.node.SlowBy = 0
+				st := 0
+				if h, _ := codec.ParseHead(e.Recv); h != nil {
+					st = h.Status
+				}
+				log = append(log, fmt.Sprintf("%s->%d", what, st))
+				confirmed := strings.HasPrefix(auth, "Basic") && strings.Contains(what, "Y29ycmVjdCBob3JzZQ") && w.has("local")
+				if (st == 200 || st == 101) && !open && !confirmed && !(half && strings.HasPrefix(auth, "Basic") && w.has("local") && strings.HasSuffix(auth, b64([]byte("alice:correct horse")))) {
+					c.S.Fail("C05", "reached-without-credentials", "auth=%v %s: the client was gone before the authentication service answered, nobody was confirmed, yet the gateway handler was reached (status %d)", w.mechs, what, st)
+				}
+				if !half {
+					e.Shut()
+				}
+				r = nil
 			}
 		case 8:
 			// valid Basic credentials whose base64 text contains the letters NTLM
